@@ -12,7 +12,7 @@ from vt.common import pick, digits, space
 META = {
     "property_id": "C13",
     "level": "exploration",
-    "technique": "CrossHair/z3-certified exhaustion of bounded document/fragment/pointer spaces through the real jsontools "
+    "technique": "CrossHair/z3: unbounded symbolic reload priorities through new_json_fragment_files + solver-certified exhaustion of bounded document/fragment/pointer spaces through the real jsontools "
                  "functions against an independent RFC 6901 + glob reference",
     "functions": [
         "annet/annlib/jsontools.py:apply_json_fragment", "annet/annlib/jsontools.py:_resolve_json_pointers",
@@ -304,6 +304,53 @@ def h_chain(case: int) -> bool:
     return ok
 
 
+# ---------------------------------------------------------------- reload priorities as unbounded symbolic integers
+PR_CASES = [
+    # (old idx, f1 idx, acl1, f2 idx, acl2)  ->  which generators change the document
+    (0, 5, 0, 9, 2), (3, 5, 0, 5, 0), (7, 1, 1, 2, 3), (12, 0, 2, 6, 0), (20, 9, 2, 9, 2), (33, 14, 0, 3, 1), (41, 2, 4, 8, 2), (63, 30, 2, 0, 0),
+]
+
+
+def h_chain_prio(p1: int, p2: int, sel: int) -> bool:
+    """
+    pre: 0 <= sel < len(PR_CASES)
+    pre: p1 >= 0 and p2 >= 0
+    post: _ == True
+    """
+    # new_json_fragment_files with two generators on one file: the reload command is the one of the generator with the
+    # highest EFFECTIVE priority (its own if it changed the document, 0 otherwise), the later generator on ties
+    from annet.annlib import jsontools
+    from annet.generators.result import RunGeneratorResult
+    from annet.types import GeneratorJSONFragmentResult
+    from crosshair.core import deep_realize
+    k = pick(sel, len(PR_CASES))
+    with NoTracing():
+        io, i1, a1, i2, a2 = PR_CASES[k]
+        old = _doc_from(FOLD, io % NFO)
+        f1 = _doc_from(FFRAG, i1 % NFF)
+        f2 = _doc_from(FFRAG, i2 % NFF)
+        step1 = jsontools.apply_json_fragment(copy.deepcopy(old), f1, CH_ACL[a1])
+        want = jsontools.apply_json_fragment(copy.deepcopy(step1), f2, CH_ACL[a2])
+        ch1, ch2 = step1 != old, want != step1
+    res = RunGeneratorResult()
+    for i, (f, acl, prio) in enumerate(((f1, CH_ACL[a1], p1), (f2, CH_ACL[a2], p2))):
+        res.add_json_fragment(GeneratorJSONFragmentResult(
+            name="g%d" % i, tags=[], path="/etc/x.json", acl=acl, acl_safe=acl, config=copy.deepcopy(f),
+            reload="reload-%d" % i, perf=None, reload_prio=prio))
+    cfg, reload_cmd = res.new_json_fragment_files({"/etc/x.json": copy.deepcopy(old)})["/etc/x.json"]
+    e1 = p1 if ch1 else 0
+    e2 = p2 if ch2 else 0
+    want_reload = "reload-0" if e1 > e2 else "reload-1"
+    ok = cfg == want and reload_cmd == want_reload
+    cs = None
+    if not ok:
+        cs = deep_realize({"sel": k, "p1": p1, "p2": p2})
+    with NoTracing():
+        rt.record(cs or {"sel": k, "path": rt.paths}, ok, ["prio", k, rt.paths] if (ch1 or ch2) else None,
+                  detail={"reload": str(reload_cmd), "want": want_reload}, fingerprint="C13:chain:reload-priority")
+    return ok
+
+
 def h_twin(case: int) -> bool:
     """
     pre: 0 <= case < NDOC
@@ -325,11 +372,18 @@ def plan(tier):
         dict(name="patch", func="h_patch", shards=16 if q else 48, timeout=250 if q else 2500),
         dict(name="fragment", func="h_fragment", shards=12 if q else 32, timeout=250 if q else 2500),
         dict(name="chain", func="h_chain", shards=12 if q else 32, timeout=250 if q else 2500),
+        dict(name="chain.symbolic-prios", func="h_chain_prio", shards=1, timeout=200 if q else 600,
+             bound="reload priorities: unbounded symbolic non-negative ints"),
         dict(name="twin", func="h_twin", shards=1, timeout=60, expect="refuted"),
     ]
 
 
 def replay(obligation, case):
+    if obligation == "chain.symbolic-prios":
+        io, i1, a1, i2, a2 = PR_CASES[case["sel"]]
+        ok, detail, fp, _ = check_chain(_doc_from(FOLD, io % NFO), _doc_from(FFRAG, i1 % NFF), CH_ACL[a1], case["p1"],
+                                        _doc_from(FFRAG, i2 % NFF), CH_ACL[a2], case["p2"])
+        return {"ok": ok, "detail": detail, "fingerprint": "C13:chain:reload-priority"}
     if obligation == "patch":
         ok, detail, fp, _ = check_patch(case["old"], case["new"])
     elif obligation == "fragment":
